@@ -5,6 +5,7 @@ mod conc;
 mod enc;
 mod fmt;
 mod mac;
+mod pbw;
 mod seq;
 mod tok;
 
@@ -37,6 +38,7 @@ fn main() {
             "I" => enc::run_i(line),
             "M" => mac::run_line(line),
             "C" => conc::run_line(line),
+            "P" => pbw::run_line(line),
             w => panic!("unknown scenario kind {}", w),
         };
         if res.ends_with("OHung]") {
